@@ -15,7 +15,7 @@ import base64
 import json
 import random
 
-from .. import endpoint, gen, tlc, lifecycle
+from .. import endpoint, gen, tlc, lifecycle, paramwire
 from ..common import rmtree, scratch, seed
 
 WIRE = {"str": "tok", "int": "7", "float": "1.5", "bool": "true", "enum": "a", "date": "2020-01-02", "uuid": "12345678-1234-5678-1234-567812345678"}
@@ -212,6 +212,9 @@ def run(rep) -> None:
         rep.extra["trace_E1_failures_by_TLC"] = len(post[0]["e1"])
         rep.extra["trace_E3_failures_by_TLC"] = len(post[0]["e3"])
         rep.sample({"op": cases[7]["op"], "args": cases[7]["args"], "variant": cases[7]["variant"], "model_placements": cases[7]["pl"]})
+        # ParamWire.tla: every accepted parameter [location, kind, required, nullable, enum style] x every value class its annotation admits:
+        # what is placed determines the argument (W2), blocking = asyncio
+        paramwire.judge(rep, "C03", d)
     finally:
         rmtree(d)
     rep.rule = ("every operation of Endpoint.tla's request universe (<=1 parameter exhaustively + sampled/all pairs, 9 body kinds, secured or not) x every "
